@@ -29,8 +29,11 @@ class WireReader:
     """Incremental reader for a stream of HTTP/1 messages (requests if `requests` else responses).
     Own implementation: head up to CRLFCRLF, Content-Length or chunked (or until-close for responses)."""
 
-    def __init__(self, requests: bool):
+    def __init__(self, requests: bool, single: bool = False):
+        """single: the connection carries one message only; for Content-Length framing every byte after the head is
+        then reported as body (the reader trusts the bytes, not the declared length)."""
         self.requests = requests
+        self.single = single
         self.buf = b""
         self.msgs: list[dict] = []  # {"start": bytes, "headers": [(k,v)], "framing": "cl"|"chunked"|"close"|"none",
         #                               "declared": int, "body": bytearray, "complete": bool}
@@ -85,9 +88,18 @@ class WireReader:
                 self.cur = m
                 if self.phase == "cl" and self.remaining == 0:
                     m["complete"] = True
-                    self.phase = "head"
+                    if not self.single:
+                        self.phase = "head"
                 continue
             assert self.cur is not None
+            if self.phase == "cl" and self.single:
+                self.cur["body"] += self.buf
+                got += self.buf
+                self.remaining -= len(self.buf)
+                self.buf = b""
+                if self.remaining <= 0:
+                    self.cur["complete"] = True
+                return bytes(got)
             if self.phase == "cl":
                 take = self.buf[: self.remaining]
                 self.buf = self.buf[len(take):]
